@@ -49,7 +49,7 @@ type SchedCase struct {
 	Pauses   []Pause   `json:"pauses"`
 }
 
-var schedKeys = []string{"a", "b", "c", "l1", "l2", "s1", "s2", "h1"}
+var schedKeys = []string{"a", "b", "c", "l1", "l2", "s1", "s2", "h1", "z1", "x1"}
 
 // genSchedCmd draws one command. near (the keys of the suspended command, for the commands that run meanwhile)
 // is where three draws in four take their keys from, when a key of the wanted kind is among them: two
@@ -109,7 +109,21 @@ func genSchedCmd(t *rapid.T, tag string, first bool, near []string) kit.Cmd {
 		// a pop that waits: it polls (first look after 100 ms), gives the lock up between polls
 		return kit.MkCmd(gen.Pick(t, "bp", "BLPOP", "BRPOP"), lst("bk"), "1")
 	}
-	switch rapid.IntRange(0, 27).Draw(t, "single") {
+	switch rapid.IntRange(0, 34).Draw(t, "single") {
+	case 28:
+		return kit.MkCmd("ZADD", "z1", gen.Pick(t, "sc", "1", "2", "3"), gen.Pick(t, "zm", "m", "n"))
+	case 29:
+		return kit.MkCmd("ZREM", "z1", gen.Pick(t, "zm", "m", "n"))
+	case 30:
+		return kit.MkCmd("ZRANGE", "z1", "0", "-1", "WITHSCORES")
+	case 31:
+		return kit.MkCmd("ZRANK", "z1", gen.Pick(t, "zm", "m", "n"))
+	case 32:
+		return kit.MkCmd("XADD", "x1", gen.Pick(t, "xid", "1-1", "2-1", "2-2", "3-0"), "f", tag)
+	case 33:
+		return kit.MkCmd("XRANGE", "x1", "-", "+")
+	case 34:
+		return kit.MkCmd("HGET", "h1", gen.Pick(t, "f", "f", "g"))
 	case 0:
 		return kit.MkCmd("SET", str("k"), tag)
 	case 1:
@@ -193,6 +207,12 @@ func genSched(t *rapid.T) SchedCase {
 	}
 	if rapid.Bool().Draw(t, "has-h1") {
 		c.Pre = append(c.Pre, kit.MkCmd("HSET", "h1", "f", "1"))
+	}
+	if rapid.Bool().Draw(t, "has-z1") {
+		c.Pre = append(c.Pre, kit.MkCmd("ZADD", "z1", "2", "m"))
+	}
+	if rapid.Bool().Draw(t, "has-x1") {
+		c.Pre = append(c.Pre, kit.MkCmd("XADD", "x1", "1-1", "f", "0"))
 	}
 	if rapid.IntRange(0, 3).Draw(t, "with-expired") == 0 {
 		for _, k := range schedKeys {
@@ -315,6 +335,10 @@ func schedDump(db *inproc.DB) (string, string) {
 			sb.WriteString(canonSched(kit.MkCmd("SMEMBERS"), do("SMEMBERS", k)) + do("SCARD", k).String())
 		case "hash":
 			sb.WriteString(canonSched(kit.MkCmd("HGETALL"), do("HGETALL", k)))
+		case "zset":
+			sb.WriteString(do("ZRANGE", k, "0", "-1", "WITHSCORES").String())
+		case "stream":
+			sb.WriteString(do("XRANGE", k, "-", "+").String())
 		}
 		ttl := do("TTL", k)
 		switch {
